@@ -345,8 +345,34 @@ class Interp:
             return 'class'
         return 'other:' + type(v).__name__
 
+    def type_is(self, a, b):
+        """`type(v) is C` (also ==) for a value v whose dynamic type is symbolic"""
+        if not isinstance(a, TypeOfV):
+            a, b = b, a
+        v = a.v
+        if isinstance(b, TypeOfV):
+            if isinstance(v, ObjV) and isinstance(b.v, ObjV):
+                return class_of(v.ref) == class_of(b.v.ref)
+            raise Unsupported('comparison of two symbolic types')
+        if isinstance(v, ObjV):
+            if not isinstance(b, ClassV) or b.name not in self.ct.classes:
+                return False      # builtin types, exception classes: never the class of a modelled object
+            if not self.ct.is_subclass(b.name, v.cls):
+                return False      # static typing (shape validity): the dynamic class is a subclass of the static one
+            return class_of(v.ref) == self.ts.class_id(b.name)
+        if isinstance(v, SV) and isinstance(v.ty, TOpt):
+            inner = self.bi_type([self.narrow_opt(v)], {}, 0)
+            isn = self.opt_is_none(v)
+            if isinstance(b, Builtin) and b.name == 'NoneType':
+                return isn
+            same = self.identical(inner, b) if not isinstance(inner, TypeOfV) else self.type_is(inner, b)
+            return self.simp(z3.And(z3.Not(isn), self.as_bool(same)))
+        raise Unsupported(f'type() comparison for {v!r:.40}')
+
     def eq(self, a, b):
         """python == as Bool term / python bool"""
+        if isinstance(a, TypeOfV) or isinstance(b, TypeOfV):
+            return self.type_is(a, b)
         if isinstance(a, SV) and isinstance(a.ty, TOpt):
             if b is None:
                 return self.opt_is_none(a)
@@ -770,7 +796,7 @@ class InterpExpr:
     EXC_NAMES = {'Exception', 'KeyError', 'ValueError', 'TypeError', 'IndexError', 'AttributeError', 'RuntimeError',
                  'NotImplementedError', 'ZeroDivisionError', 'StopIteration', 'AssertionError', 'OSError', 'LookupError',
                  'ArithmeticError', 'ImportError', 'ModuleNotFoundError', 'SyntaxError', 'OverflowError', 'BaseException',
-                 'FileNotFoundError', 'IOError', 'UnicodeError', 'RecursionError'}
+                 'FileNotFoundError', 'IOError', 'UnicodeError', 'RecursionError', 'MemoryError'}
 
     def partial(self, ok, exc, line):
         """partial operation: `ok` is the condition under which it does not raise `exc`"""
@@ -939,6 +965,8 @@ class InterpExpr:
                     xt = self.lift(x)
                     res = xt if res is None else z3.If(base.t == code, xt, res)
                 return SV(res, STR if res.sort() == Str else INT)
+        if attr == '__name__' and isinstance(base, (ClassV, TypeOfV)):
+            return base.name.split('.')[-1] if isinstance(base, ClassV) else self.opaque_str()
         if isinstance(base, ClassV):
             return self.class_getattr(base.name, attr, line)
         if isinstance(base, ModuleV):
@@ -1014,7 +1042,40 @@ class InterpExpr:
             ext = self.reg.external_attr(cls, attr)
             if ext is not None:
                 return ext(self, obj)
+        down = self.downcast_getattr(obj, attr, line)
+        if down is not NotImplemented:
+            return down
         raise Unsupported(f'{cls}.{attr}: neither property, field, method nor class constant (line {line})')
+
+    def downcast_getattr(self, obj, attr, line):
+        """attribute that the static class does not have but some of its subclasses declare as a field: python raises
+        AttributeError unless the dynamic class is one of them (partial operation), then reads that class's field"""
+        if obj.cls not in self.ct.classes or self.is_exact(obj):
+            return NotImplemented
+        cands = []
+        for c in self.ct.subclasses(obj.cls):
+            if c == obj.cls:
+                continue
+            ft = self.ts.field_type(c, attr)
+            if ft is not None and ft != ANY and self.ct.find_getter(c, attr) is None:
+                cands.append((c, ft))
+        if not cands:
+            return NotImplemented
+        ids = lambda cs: z3.Or([class_of(obj.ref) == self.ts.class_id(c) for c in cs])
+        self.partial(ids([c for c, _ in cands]), 'AttributeError', line)
+        groups = {}
+        for c, ft in cands:
+            groups.setdefault(ft, []).append(c)
+        glist = list(groups.items())
+        if len(glist) > 1:
+            if self.mode != EXEC:
+                raise Unsupported(f'{obj.cls}.{attr} has different types in subclasses: narrow the object first '
+                                  f'(quantify over the subclass) at line {line}')
+            for ft, cs in glist[:-1]:
+                if self.run.decide(ids(cs)):
+                    return self.read_field(ObjV(obj.ref, cs[0], obj.heap), attr)
+        ft, cs = glist[-1]
+        return self.read_field(ObjV(obj.ref, cs[0], obj.heap), attr)
 
     def class_const(self, cc):
         dc, node = cc
@@ -1244,6 +1305,8 @@ class InterpExpr:
         return self.contains(coll, v)
 
     def identical(self, a, b):
+        if isinstance(a, TypeOfV) or isinstance(b, TypeOfV):
+            return self.type_is(a, b)
         if a is None or b is None:
             o = b if a is None else a
             if o is None:
@@ -1270,6 +1333,8 @@ class InterpExpr:
             return self.eq(a, b)
         if isinstance(a, Builtin) and isinstance(b, Builtin):
             return a.name == b.name
+        if isinstance(a, (Builtin, ClassV)) and isinstance(b, (Builtin, ClassV)):
+            return False      # a builtin type and a class of the class table
         if isinstance(a, HeapVal) != isinstance(b, HeapVal):
             return False
         raise Unsupported(f'`is` between {type(a).__name__} and {type(b).__name__}')
@@ -1643,7 +1708,7 @@ class InterpComp:
         want: 'any' / 'all' -> Bool term; 'elems' -> (vars, guard(with ifs), value) for further use."""
         node, fr = gen.node, gen.frame
         if len(node.generators) != 1:
-            raise Unsupported('nested generators over symbolic collections')
+            return self._quantified_gen_nested(node, fr, want)
         g = node.generators[0]
         coll = self.ev(g.iter, fr)
         items = self.iter_const(coll)
@@ -1669,6 +1734,36 @@ class InterpComp:
             self.run.pop()
             self.mode = saved
         return ('sym', vars_, z3.And(conds) if len(conds) > 1 else conds[0], elt, coll)
+
+    def _quantified_gen_nested(self, node, fr, want):
+        """several `for` clauses, all over symbolic collections (later ones may depend on earlier targets): one bound
+        variable group per clause, the guard is the conjunction; the order of the elements is not described (coll=None)"""
+        sub = Frame(fr.fi, fr.module, dict(fr.vars), fr.selfv, fr.defcls)
+        saved = self.mode
+        if self.mode == EXEC:
+            self.mode = GENERIC
+        self.run.push()
+        try:
+            vars_all, conds = [], []
+            for g in node.generators:
+                coll = self.ev(g.iter, sub)
+                if self.iter_const(coll) is not None:
+                    raise Unsupported('nested generators mixing constant and symbolic collections')
+                vars_, guard, val = self.generic_iter(coll)
+                self.run.assume(guard)
+                self.assume_domain(val)
+                self.bind_target(g.target, val, sub)
+                vars_all.extend(vars_)
+                conds.append(guard)
+                for c in g.ifs:
+                    ct = self.as_bool(self.truthy(self.ev(c, sub)))
+                    conds.append(ct)
+                    self.run.assume(ct)
+            elt = self.ev(node.elt, sub) if want != 'guard' else None
+        finally:
+            self.run.pop()
+            self.mode = saved
+        return ('sym', vars_all, z3.And(conds) if len(conds) > 1 else conds[0], elt, None)
 
     def eval_gen_const(self, items, g, node, fr):
         """explicit evaluation of a comprehension over a sequence of known length (exec mode forks as python would)"""
@@ -1890,7 +1985,7 @@ class InterpStmt:
                          'OSError': 'Exception', 'IOError': 'Exception', 'FileNotFoundError': 'OSError', 'ImportError': 'Exception',
                          'ModuleNotFoundError': 'ImportError', 'SyntaxError': 'Exception', 'UnicodeError': 'ValueError',
                          'Exception': 'BaseException', 'RPCError': 'Exception', 're.error': 'Exception', 'error': 'Exception',
-                         'Fault': 'Exception', 'InvalidTransition': 'SupvisorsException', 'Empty': 'Exception'}
+                         'MemoryError': 'Exception', 'Fault': 'Exception', 'InvalidTransition': 'SupvisorsException', 'Empty': 'Exception'}
 
     def exc_isinstance(self, cls, base):
         seen = set()
